@@ -9,7 +9,7 @@ import z3
 
 from vverif import spec_evm as S
 from vverif.contracts.ranges import gamma, mk_range, py_gamma, py_mk, reading_cases, vr_fields
-from vverif.jobutil import discharge, number
+from vverif.jobutil import discharge, fact, number
 from vverif.pyvc import BITAND, BITOR, BITXOR, POWMOD256, Engine, HCont, St, SymObj, as_int, bit_lemmas, is_sym
 
 M, H = S.M, S.H
@@ -387,3 +387,76 @@ def replay_client(o):
 
 
 REPLAY = {"sccp": replay_sccp, "memloc": replay_memloc, "client": replay_client}
+
+
+# ------------------------------------------------------------------------------------------------ printer / parser / well-formedness
+FUNCS_IRTEXT = ["vyper.venom.parser:parse_venom", "vyper.venom.context:IRContext.__repr__", "vyper.venom.check_venom:find_semantic_errors", "vyper.venom:run_passes_on"]
+
+
+def job_ir_roundtrip(tids, cfg, scale=1):
+    """bounded stand-in (run-time contract evaluation on the template family, not a proof):
+         - the front end's Venom IR (before the passes) and the IR after the pass pipeline have no semantic errors
+           (`find_semantic_errors`: well-formedness);
+         - printing the front-end IR and parsing it back gives a program that prints identically and that the same pass pipeline
+           and back end compile to the same bytecode (so the printed IR denotes an equivalent program)"""
+    from vyper.codegen_venom import generate_runtime_venom
+    from vyper.compiler.phases import CompilerData
+    from vyper.compiler.settings import anchor_settings
+    from vyper.evm.assembler.core import assembly_to_evm
+    from vyper.venom import generate_assembly_experimental, run_passes_on
+    from vyper.venom.check_venom import find_semantic_errors
+    from vyper.venom.parser import parse_venom
+    from vverif.contracts.templates_lib import build
+    from vverif.sem import templates as T
+
+    obs = []
+    Tl = build(True)
+    for tid in tids:
+        src = Tl[tid]
+        settings = T.settings_for(cfg)
+        replay = {"kind": "irtext", "tid": tid, "cfg": cfg}
+        try:
+            with anchor_settings(settings):
+                cd = CompilerData(src, settings=settings)
+                ctx = generate_runtime_venom(cd.global_ctx, settings)
+                errs0 = find_semantic_errors(ctx)
+                text = str(ctx)
+                ctx2 = parse_venom(text)
+                text2 = str(ctx2)
+                flags = settings.get_venom_flags()
+                run_passes_on(ctx, flags)
+                errs1 = find_semantic_errors(ctx)
+                run_passes_on(ctx2, flags)
+                b1, _ = assembly_to_evm(generate_assembly_experimental(ctx, optimize=settings.optimize))
+                b2, _ = assembly_to_evm(generate_assembly_experimental(ctx2, optimize=settings.optimize))
+        except Exception as e:
+            fact(obs, f"venom-ir[{tid}]:pipeline-runs-on-printed-and-parsed-ir", False, bounded=True, replay=replay, note=f"{type(e).__name__}: {e}"[:300])
+            continue
+        fact(obs, f"venom-ir[{tid}]:front-end-ir-is-well-formed", not errs0, bounded=True, replay=replay, note=str(errs0)[:200])
+        fact(obs, f"venom-ir[{tid}]:ir-after-passes-is-well-formed", not errs1, bounded=True, replay=replay, note=str(errs1)[:200])
+        fact(obs, f"venom-ir[{tid}]:print-parse-print-is-a-fixpoint", text == text2, bounded=True, replay=replay)
+        if b1 == b2:
+            fact(obs, f"venom-ir[{tid}]:parsed-ir-compiles-to-equivalent-bytecode", True, bounded=True, replay=replay, note="identical bytes")
+        else:
+            # different bytes (information that steers the optimiser is not printed): equivalence is proved, not assumed
+            from vverif.contracts import relational as R
+            from vverif.sem import bytecode as BC
+            from vverif.sem import machine as Mx
+
+            env = Mx.Env()
+            env.reentrancy_havoc = True
+            try:
+                A = BC.run(b1, env, max_paths=600)
+                B = BC.run(b2, env, max_paths=600)
+            except Mx.Unsupported as e:
+                obs.append({"clause": f"venom-ir[{tid}]:parsed-ir-compiles-to-equivalent-bytecode", "status": "unknown", "backend": "engine", "seconds": 0, "model": None, "note": str(e), "bounded": True})
+                continue
+            idx = z3.BitVec("idx!", 256)
+            for a in A:
+                for b in B:
+                    both = z3.And(a.pc, b.pc)
+                    if not R.feasible(both, 2000):
+                        continue
+                    discharge(obs, f"venom-ir[{tid}]:parsed-ir-compiles-to-equivalent-bytecode", z3.Implies(both, R.same_outcome(a, b, idx, None)), hyps=list(env.assumptions), replay=replay, bounded=True,
+                              note=f"{len(b1)} vs {len(b2)} bytes")
+    return number(obs)
